@@ -28,7 +28,10 @@ class PathAbort(BaseException):
 # --------------------------------------------------------------------------
 
 class Ctx:
-    def __init__(self, prefix=(), query_timeout_ms=10000, assumptions=(), div_mode='assume', sqrt_mode='fresh'):
+    def __init__(self, prefix=(), query_timeout_ms=10000, assumptions=(), div_mode='assume', sqrt_mode='fresh', fork_policy='check', prefer_true=()):
+        self.fork_policy = fork_policy
+        self.prefer_true = prefer_true
+        self.soft_assumed = 0
         self.solver = z3.Solver()
         self.solver.set('timeout', query_timeout_ms)
         self.query_timeout_ms = query_timeout_ms
@@ -98,6 +101,15 @@ class Ctx:
         return r
 
     # -- branching ----------------------------------------------------------
+    def _site_matches(self):
+        import sys as _sys
+        f = _sys._getframe(2)
+        while f is not None:
+            if '/mininec/' in f.f_code.co_filename:
+                return (f.f_code.co_name in self.prefer_true)
+            f = f.f_back
+        return False
+
     def next_tag(self):
         pos = len(self.trail)
         if pos < len(self.prefix):
@@ -119,10 +131,27 @@ class Ctx:
                 self.pc.append(c)
                 self.solver.add(c)
             return val
-        rt = self.check(cond)
-        rf = self.check(z3.Not(cond))
-        t_ok = rt != z3.unsat
-        f_ok = rf != z3.unsat
+        if self.prefer_true and self._site_matches():
+            # a designated site (e.g. the -999 floor of the dBi table): do not fork; take the True
+            # side as a recorded ASSUMPTION unless it is infeasible
+            self.solver.set('timeout', 1000)
+            rt = self.check(cond)
+            self.solver.set('timeout', self.query_timeout_ms)
+            if rt == z3.unsat:
+                self.trail.append((False, False, tag))
+                return False
+            self.trail.append((True, False, tag))
+            self.pc.append(cond)
+            self.solver.add(cond)
+            self.soft_assumed += 1
+            return True
+        if self.fork_policy == 'assume':
+            t_ok = f_ok = True          # no feasibility query: infeasible paths are weeded out by the twin query
+        else:
+            rt = self.check(cond)
+            rf = self.check(z3.Not(cond))
+            t_ok = rt != z3.unsat
+            f_ok = rf != z3.unsat
         if t_ok and f_ok:
             if DEBUG_FORKS:
                 import traceback
@@ -143,6 +172,20 @@ class Ctx:
 
 _ctx = None
 DEBUG_FORKS = False
+
+
+def _ids(c, *terms):
+    """ids of z3 terms for memo keys; the terms are kept alive for the lifetime of the context
+    (z3 recycles the id of a garbage-collected term, which would alias memo entries)."""
+    keep = c.__dict__.setdefault('keepalive', [])
+    out = []
+    for t in terms:
+        if t is None:
+            out.append(None)
+        else:
+            keep.append(t)
+            out.append(t.get_id())
+    return tuple(out)
 
 
 def ctx():
@@ -173,7 +216,8 @@ class PathResult:
 
 
 def explore(fn, max_paths=2000, query_timeout_ms=10000, wall_s=None,
-            catch=(Exception,), assumptions=(), div_mode='assume', sqrt_mode='fresh'):
+            catch=(Exception,), assumptions=(), div_mode='assume', sqrt_mode='fresh', fork_policy='check',
+            prefer_true=()):
     """Run fn() once per feasible path (DFS by re-execution).
 
     fn receives no arguments and creates its own symbolic inputs (same names on
@@ -184,7 +228,8 @@ def explore(fn, max_paths=2000, query_timeout_ms=10000, wall_s=None,
     prefix = []
     t0 = time.time()
     while True:
-        c = Ctx(prefix, query_timeout_ms, assumptions=(), div_mode=div_mode, sqrt_mode=sqrt_mode)
+        c = Ctx(prefix, query_timeout_ms, assumptions=(), div_mode=div_mode, sqrt_mode=sqrt_mode,
+                fork_policy=fork_policy, prefer_true=prefer_true)
         set_ctx(c)
         try:
             for a in assumptions:
@@ -635,7 +680,7 @@ class SR(_Num):
             s = math.isqrt(k.numerator) , math.isqrt(k.denominator)
             if s[0] ** 2 == k.numerator and s[1] ** 2 == k.denominator:
                 return SR(RV(Fraction(s[0], s[1])))
-        key = ('sqrt', self.n.get_id(), None if self.d is None else self.d.get_id())
+        key = ('sqrt',) + _ids(c, self.n, self.d)
         memo = c.__dict__.setdefault('memo', {})
         if key in memo:
             return memo[key]
@@ -643,8 +688,8 @@ class SR(_Num):
         # uninterpreted function (congruence: equal arguments give equal roots) + defining axioms
         r = ufn('sqrt', self) if c.sqrt_mode.startswith('uf') else SR(c.fresh('sqrt'))
         y = r.n
-        if c.sqrt_mode != 'uf-free' and ('ax', y.get_id()) not in memo:
-            memo[('ax', y.get_id())] = True
+        if c.sqrt_mode != 'uf-free' and ('ax',) + _ids(c, y) not in memo:
+            memo[('ax',) + _ids(c, y)] = True
             c.axiom(y >= 0)
             c.axiom(_mul(_mul(y, y), self.den) == self.n)
         memo[key] = r
@@ -733,19 +778,32 @@ def ufn_c(name, *args):
 
 
 def _circle(a):
-    """cos/sin of a symbolic angle via the rational parametrisation (one free u per angle)."""
+    """cos/sin of a symbolic angle: two fresh reals c, s with c^2 + s^2 = 1 (one pair per distinct
+    angle term; angles that differ from a known one by a concrete multiple of 2*pi share its pair)."""
     c = ctx()
     memo = c.__dict__.setdefault('memo', {})
     a = SR.lift(a)
-    key = ('circ', a.n.get_id(), None if a.d is None else a.d.get_id())
+    key = ('circ',) + _ids(c, a.n, a.d)
     if key not in memo:
         k = a.const()
         if k is not None:
             memo[key] = (math.cos(float(k)), math.sin(float(k)))
         else:
-            u = c.fresh('u')
-            den = 1 + u * u
-            memo[key] = (SR(1 - u * u, den), SR(2 * u, den))
+            known = c.__dict__.setdefault('circ_known', [])
+            for b, pair in known:
+                d = z3.simplify((a - b).term())
+                if z3.is_rational_value(d):
+                    dv = d.numerator_as_long() / d.denominator_as_long()
+                    q = dv / (2 * math.pi)
+                    if abs(q - round(q)) < 1e-9:
+                        memo[key] = pair
+                        break
+            else:
+                cs, sn = c.fresh('cos'), c.fresh('sin')
+                c.axiom(cs * cs + sn * sn == 1)
+                c.axiom(z3.And(cs >= -1, cs <= 1, sn >= -1, sn <= 1))
+                memo[key] = (SR(cs), SR(sn))
+                known.append((a, memo[key]))
     return memo[key]
 
 
@@ -980,14 +1038,13 @@ class SC(_Num):
         """Principal square root by its defining equations."""
         c = ctx()
         memo = c.__dict__.setdefault('memo', {})
-        key = ('csqrt',) + tuple(None if t is None else t.get_id()
-                                 for t in (self.nr, self.ni, self.dr, self.di))
+        key = ('csqrt',) + _ids(c, self.nr, self.ni, self.dr, self.di)
         if key in memo:
             return memo[key]
         r = ufn_c('csqrt', self) if c.sqrt_mode.startswith('uf') else SC.raw(c.fresh('csqrt_p'), c.fresh('csqrt_q'))
         p, q = r.nr, r.ni
-        if c.sqrt_mode != 'uf-free' and ('ax', p.get_id()) not in memo:
-            memo[('ax', p.get_id())] = True
+        if c.sqrt_mode != 'uf-free' and ('ax',) + _ids(c, p) not in memo:
+            memo[('ax',) + _ids(c, p)] = True
             c.axiom((r * r).eq_t(self))
             c.axiom(z3.Or(p > 0, z3.And(p == 0, q >= 0)))
         memo[key] = r
